@@ -230,7 +230,19 @@ def run_history(ctx, pay, cfg, ops):
     d = ctx.tmpdir('c')
     cache = make_backend(cfg, d)
     try:
-        return [run_op(pay, cache, op) for op in ops]
+        outs = []
+        for op in ops:
+            if op[0] == 'reopen':
+                # the mapping is persistent: drop the cache object, open the directory / database again
+                try:
+                    close_backend(cache)
+                    cache = make_backend(cfg, d)
+                    outs.append(['done'])
+                except Exception as e:  # noqa
+                    outs.append(['raised', type(e).__name__])
+            else:
+                outs.append(run_op(pay, cache, op))
+        return outs
     finally:
         close_backend(cache)
         import shutil
@@ -241,6 +253,8 @@ def run_history(ctx, pay, cfg, ops):
 
 def op_addresses(op):
     k = op[0]
+    if k == 'reopen':
+        return []
     if k in ('store', 'load', 'cached', 'remove'):
         return [tuple(op[1])]
     if k == 'store_many':
@@ -270,6 +284,8 @@ def spec_outputs(pay, ops):
         elif k == 'remove':
             m.pop(tuple(op[1]), None)
             outs.append(['done'])
+        else:
+            outs.append(['done'])          # reopen
     return outs
 
 
@@ -453,7 +469,8 @@ def collide_variants(rng, layout_or_kind, x, y, z):
          (x + 1000, y, z), (x, y + 1000, z), (x + 1000000, y, z), (x % 1000, y, z), (x + 10000, y, z),
          (x + 128, y, z), (x, y + 128, z), (x % 128, y % 128, z), (x + 128, y + 128, z), (x * 1000, y, z),
          (x // 1000, y, z), (z, y, x) if x < 30 else (x, y, z), (x, z, y) if y < 30 else (x, y, z),
-         (x ^ 1, y, z), (x, y ^ 1, z), (x ^ 128, y, z), (x + 65536, y, z), (x, y + 65536, z)]
+         (x ^ 1, y, z), (x, y ^ 1, z), (x ^ 128, y, z), (x + 65536, y, z), (x, y + 65536, z),
+         (x + 100, y, z), (x + 100000, y, z), (x, y + 10000, z), (x + 2000, y, z), (x + 20000, y, z), (x, y + 100000, z)]
     return v
 
 
@@ -540,8 +557,10 @@ def gen_ops(rng, pay, pool, length, link=False):
             ops.append(('load_many', [(b[0], b[1], b[2]) for b in rng.sample(group, k)], a[3]))
         elif r < 0.84:
             ops.append(('cached', a))
-        else:
+        elif r < 0.97:
             ops.append(('remove', a))
+        else:
+            ops.append(('reopen',))
     return ops
 
 
@@ -635,6 +654,8 @@ def normalise_op(o):
         return ('load_many', [(c[0], c[1], c[2]) for c in o[1]], tuple((a, b) for (a, b) in o[2]))
     if k in ('load', 'cached', 'remove'):
         return (k, norm_addr(o[1]))
+    if k == 'reopen':
+        return ('reopen',)
     raise ValueError(k)
 
 
@@ -805,8 +826,8 @@ def run(ctx):
     # 3. random long histories on colliding pools
     for cfg in cfgs:
         slow = cfg['kind'] in SQL_KINDS
-        for _ in range(ctx.n(3, 30)):
-            pool = gen_pool(rng, cfg, rng.choice([3, 4, 6, 8, 10]))
+        for _ in range(ctx.n(3 if slow else 7, 30 if slow else 60)):
+            pool = gen_pool(rng, cfg, rng.choice([3, 4, 6, 8, 10, 14]))
             length = rng.choice([10, 30, 60, 120, 200]) if not (slow and ctx.quick) else rng.choice([10, 30, 60])
             todo.append((cfg, gen_ops(rng, pay, pool, length, cfg.get('link', 'none') != 'none'), 'random'))
     # 3b. the regime of finding F4 (dimensions on arcgis / quadkey, quadkey addresses outside the quad range)
@@ -831,8 +852,11 @@ def run(ctx):
         ctx.count('ops', len(ops))
         oracle(ctx, pay, cfg, ops, outs, origin)
         big = origin == 'big-bulk-load'
+        # re-opening is the identity of the models (their state is the persistent state): not part of the term
+        mops = [(o, r) for (o, r) in zip(ops, outs) if o[0] != 'reopen' or r != ['done']]
         (bterms if big else terms).append('(%s,\n [%s],\n [%s])' % (
-            cfg_lit(cfg), ';\n  '.join(op_lit(pay, o) for o in ops), '; '.join(out_lit(o) for o in outs)))
+            cfg_lit(cfg), ';\n  '.join(op_lit(pay, o) for (o, _) in mops if o[0] != 'reopen'),
+            '; '.join(out_lit(r) for (o, r) in mops)))
         (bdescr if big else descr).append({
             'backend': cfg, 'origin': origin, 'history': ops if len(ops) <= 40 else ops[:40] + ['...'],
             'implementation_outputs': outs if len(outs) <= 40 else ['...']})
